@@ -280,3 +280,67 @@ def check(prog, run):
         r.instance("%s handles %s: %s" % (f.qualname, exc, ok))
         if not ok:
             run.report(r, "%s:%s:unhandled(%s)" % (f.module.name, f.qualname, exc), f.where(), "%s lets %s escape as is" % (f.qualname, exc))
+
+    check_numeric_conversions(prog, run, "I4")
+    from . import c04
+    c04.check_context_threading(prog, run, "V1")
+    c04.check_memo_keys(prog, run, "M1")
+
+
+NUMERIC_CATALOGUE_TEXT = (
+    "every builtin numeric conversion in the scalar coercers of schema/scalars.py (`int(x)`, `int(x, base)`, `float(x)`) that can "
+    "raise OverflowError for the kind of argument reaching it (int(float) for ±inf, float(int) for integers beyond the double "
+    "range, any conversion of an argument of unknown kind) sits inside a handler for OverflowError/ArithmeticError: "
+    "ScalarType.parse/serialize convert only ValueError|TypeError, so an OverflowError leaves the request as an internal exception")
+
+
+def check_numeric_conversions(prog, run, rule_id):
+    r = run.rule(rule_id, NUMERIC_CATALOGUE_TEXT, 3)
+    mod = prog.module(SC)
+    funcs = [f for f in prog.all_funcs() if f.module is mod]
+    for f in funcs:
+        for n in own_nodes(f.node):
+            if not (isinstance(n, ast.Call) and isinstance(n.func, ast.Name) and n.func.id in ("int", "float") and n.args):
+                continue
+            arg = n.args[0]
+            kinds = None   # None = unknown
+            if isinstance(arg, ast.Constant):
+                kinds = {type(arg.value).__name__}
+            if isinstance(arg, ast.Name):
+                cur = n
+                while getattr(cur, "_parent", None) is not None and cur is not f.node:
+                    par = cur._parent
+                    if isinstance(par, ast.If) and any(cur is b for b in par.body):
+                        for t in (par.test.values if isinstance(par.test, ast.BoolOp) and isinstance(par.test.op, ast.And) else [par.test]):
+                            if isinstance(t, ast.Call) and isinstance(t.func, ast.Name) and t.func.id == "isinstance" and len(t.args) == 2 \
+                                    and isinstance(t.args[0], ast.Name) and t.args[0].id == arg.id:
+                                kinds = {x.id for x in ast.walk(t.args[1]) if isinstance(x, ast.Name)}
+                    cur = par
+                # a local bound from float(...)/int(...) has that kind
+                if kinds is None:
+                    binds = [x.value for x in own_nodes(f.node) if isinstance(x, ast.Assign) and len(x.targets) == 1
+                             and isinstance(x.targets[0], ast.Name) and x.targets[0].id == arg.id]
+                    if len(binds) == 1 and isinstance(binds[0], ast.Call) and isinstance(binds[0].func, ast.Name) and binds[0].func.id in ("float", "int", "str"):
+                        kinds = {binds[0].func.id}
+            if n.func.id == "int" and len(n.args) >= 2:
+                may = set()                       # int(str, base): ValueError / TypeError only
+            elif n.func.id == "int":
+                may = {"OverflowError"} if (kinds is None or "float" in kinds) else set()
+            else:
+                may = {"OverflowError"} if (kinds is None or "int" in kinds) else set()
+            caught = False
+            cur = n
+            while getattr(cur, "_parent", None) is not None and cur is not f.node:
+                par = cur._parent
+                if isinstance(par, ast.Try) and any(cur is b for b in par.body):
+                    for h in par.handlers:
+                        names = {"BaseException"} if h.type is None else {x.id for x in ast.walk(h.type) if isinstance(x, ast.Name)}
+                        if names & {"OverflowError", "ArithmeticError", "Exception", "BaseException"}:
+                            caught = True
+                cur = par
+            r.instance("%s: %s with argument kind %s may raise %s, handled: %s" % (f.qualname, ast.unparse(n), sorted(kinds) if kinds else "unknown", sorted(may), caught))
+            if may and not caught:
+                run.report(r, "%s:%s:unconverted-overflow(%s)" % (SC, f.qualname, ast.unparse(n)), f.where(n),
+                           "`%s` can raise OverflowError (argument kind: %s) outside any handler for it: the error is neither ValueError "
+                           "nor TypeError, so ScalarType does not turn it into a coercion error and it aborts the whole request"
+                           % (ast.unparse(n), "/".join(sorted(kinds)) if kinds else "unknown"))
